@@ -440,7 +440,8 @@ where
 
         let name = self.rust_name(did);
 
-        stream.push_str(&self.def_lit(&name, &c.lit, &mut ty).unwrap())
+        // through Display, so that a name that is a Rust keyword is escaped like every reference to it
+        stream.push_str(&self.def_lit(&name.to_string(), &c.lit, &mut ty).unwrap())
     }
 
     pub fn write_workspace(self, base_dir: PathBuf) -> anyhow::Result<()> {
